@@ -27,16 +27,16 @@ Proof.
   destruct o; cbn [negb orb andb] in *. rewrite H2. reflexivity. reflexivity.
 Qed.
 
-Lemma read_rows_counted_gen : forall R o recs prev earlier,
+Lemma read_rows_counted_gen : forall o recs prev earlier,
   match prev with
   | None => earlier = []
   | Some p => In p earlier /\ forall q, In q earlier -> q <= p
   end ->
   StronglySorted Z.le (map r_pos (filter (eligible o) recs)) ->
   (forall p, prev = Some p -> forall r, In r (filter (eligible o) recs) -> p <= r_pos r) ->
-  read_rows R o prev recs = Some (map (row_of R) (counted_from o earlier recs)).
+  read_rows o prev recs = Some (map row_of (counted_from o earlier recs)).
 Proof.
-  intros R o. induction recs as [|r rest IH]; intros prev earlier Hrel Hs Hge. reflexivity.
+  intros o. induction recs as [|r rest IH]; intros prev earlier Hrel Hs Hge. reflexivity.
   cbn [read_rows counted_from filter map] in *.
   destruct (eligible o r) eqn:El.
   - rewrite (eligible_decision_true o prev r El).
@@ -66,10 +66,10 @@ Proof.
   - rewrite (eligible_decision o prev r El). apply IH; assumption.
 Qed.
 
-Lemma read_rows_counted : forall R o recs, sorted_recs o recs ->
-  read_rows R o None recs = Some (map (row_of R) (counted o recs)).
+Lemma read_rows_counted : forall o recs, sorted_recs o recs ->
+  read_rows o None recs = Some (map row_of (counted o recs)).
 Proof.
-  intros R o recs H. unfold counted. apply read_rows_counted_gen. reflexivity. exact H.
+  intros o recs H. unfold counted. apply read_rows_counted_gen. reflexivity. exact H.
   intros p Ep. discriminate.
 Qed.
 
@@ -78,15 +78,15 @@ Qed.
 Definition counts_as_het (R : rules) (row : trow) : bool :=
   negb (is_homozygous (t_gt row)) && negb (skip_missing_gt R && is_none (t_gt row)).
 Definition hrows (R : rules) (rows : list trow) : list trow := filter (counts_as_het R) rows.
-Definition entry_of (row : trow) : list (key * var) :=
-  match t_phase row with
+Definition entry_of (R : rules) (row : trow) : list (key * var) :=
+  match eff_phase R row with
   | Some k => [(k, mkVar (t_pos row) (t_snv row))]
   | None => []
   end.
-Definition entries (R : rules) (rows : list trow) : list (key * var) := flat_map entry_of (hrows R rows).
+Definition entries (R : rules) (rows : list trow) : list (key * var) := flat_map (entry_of R) (hrows R rows).
 Definition dict_build (l : list (key * var)) (d : list (key * pblock)) : list (key * pblock) :=
   fold_left (fun d e => dict_add (fst e) (snd e) d) l d.
-Definition phase_none (row : trow) : bool := match t_phase row with None => true | Some _ => false end.
+Definition phase_none (R : rules) (row : trow) : bool := match eff_phase R row with None => true | Some _ => false end.
 
 Lemma count_cons : forall (A : Type) (p : A -> bool) x l,
   count p (x :: l) = (if p x then 1 else 0) + count p l.
@@ -101,7 +101,7 @@ Proof.
 Qed.
 Lemma gpb_step_het : forall R s row, counts_as_het R row = true ->
   gpb_step R s row =
-  match t_phase row with
+  match eff_phase R row with
   | None => mkG (g_variants s + 1) (g_het s + 1) (if t_snv row then g_hetsnv s + 1 else g_hetsnv s)
                 (g_unph s + 1) (g_blocks s) (g_prev s) (g_gtf s)
   | Some k => mkG (g_variants s + 1) (g_het s + 1) (if t_snv row then g_hetsnv s + 1 else g_hetsnv s)
@@ -119,7 +119,7 @@ Lemma gpb_fold : forall R rows s,
   g_variants s' = g_variants s + Z.of_nat (length rows) /\
   g_het s' = g_het s + Z.of_nat (length (hrows R rows)) /\
   g_hetsnv s' = g_hetsnv s + count t_snv (hrows R rows) /\
-  g_unph s' = g_unph s + count phase_none (hrows R rows) /\
+  g_unph s' = g_unph s + count (phase_none R) (hrows R rows) /\
   g_blocks s' = dict_build (entries R rows) (g_blocks s).
 Proof.
   intros R. induction rows as [|row rows IH]; intros s; cbn zeta.
@@ -130,14 +130,14 @@ Proof.
     unfold entries, hrows. cbn [filter]. fold (hrows R rows).
     destruct (counts_as_het R row) eqn:Ec.
     + rewrite (gpb_step_het R s row Ec). cbn [flat_map length]. rewrite !count_cons.
-      destruct (t_phase row) as [k|] eqn:Ep.
-      * assert (Hpn : phase_none row = false) by (unfold phase_none; rewrite Ep; reflexivity).
-        assert (Hen : entry_of row = [(k, mkVar (t_pos row) (t_snv row))]) by (unfold entry_of; rewrite Ep; reflexivity).
+      destruct (eff_phase R row) as [k|] eqn:Ep.
+      * assert (Hpn : phase_none R row = false) by (unfold phase_none; rewrite Ep; reflexivity).
+        assert (Hen : entry_of R row = [(k, mkVar (t_pos row) (t_snv row))]) by (unfold entry_of; rewrite Ep; reflexivity).
         rewrite Hpn, Hen. cbn [g_variants g_het g_hetsnv g_unph g_blocks app].
         unfold dict_build. cbn [fold_left fst snd].
         destruct (t_snv row); repeat split; try lia; reflexivity.
-      * assert (Hpn : phase_none row = true) by (unfold phase_none; rewrite Ep; reflexivity).
-        assert (Hen : entry_of row = []) by (unfold entry_of; rewrite Ep; reflexivity).
+      * assert (Hpn : phase_none R row = true) by (unfold phase_none; rewrite Ep; reflexivity).
+        assert (Hen : entry_of R row = []) by (unfold entry_of; rewrite Ep; reflexivity).
         rewrite Hpn, Hen. cbn [g_variants g_het g_hetsnv g_unph g_blocks app].
         destruct (t_snv row); repeat split; try lia; reflexivity.
     + rewrite (gpb_step_skip R s row Ec). cbn [g_variants g_het g_hetsnv g_unph g_blocks length].
